@@ -17,7 +17,7 @@ ints), slices with any step sign, Ellipsis, ONE 1-d integer list / NumPy array /
 duplicates (same value), empty), ONE 1-d boolean list / NumPy array / dask array, multi-axis combinations of
 those, a full-shape boolean mask (NumPy or dask) as the sole index.  No None (not documented for assignment).
 Values: Python / NumPy scalars, 0-d arrays, NumPy arrays and nested lists of the selection shape, broadcastable
-shapes (leading axes dropped, size-1 axes, extra leading size-1 axes), dask arrays with random chunkings.
+shapes (leading axes dropped, size-1 axes), dask arrays with random chunkings.
 
 Labels: as in C20 the failing index is shrunk; then the value is simplified (scalar, then plain NumPy array of the
 full selection shape).  ``setitem:<index tokens>[&split-chunks][&zero-length-axis]&value=<kind>:<symptom>``.
@@ -58,7 +58,7 @@ RULE = ("cases = (shape, chunking, dtype, encoded index, value mode). Complete p
         "(3,2) (8) (thorough also (6,) and (2,2,2)) x a fixed list of index/value patterns (slices of both signs, empty "
         "slices, ints, integer lists sorted/unsorted/negative/duplicate/empty, boolean lists/arrays, dask int and bool "
         "indexers, Ellipsis, full-shape masks, multi-axis combinations; scalar, full, broadcast and dask values). Random part: "
-        "1-4 d arrays with axis lengths 0-9, random chunkings, random documented index tuples, 9 value modes x {NumPy, list, "
+        "1-4 d arrays with axis lengths 0-9, random chunkings, random documented index tuples, 7 value modes (scalar, NumPy scalar, 0-d, full, trailing axes, size-1 axes, all-size-1) x {NumPy, list, "
         "dask}. non-trivial = some axis split into >= 2 chunks; distinct = distinct (shape, chunks, dtype, index, value mode).")
 ASSUMPTIONS = ["NumPy 2.x assignment defines the expected array", "sync scheduler (threads for a tenth)"]
 BUDGET = {"quick": 120, "thorough": 900}
